@@ -4151,7 +4151,8 @@ class LFRicHaloExchange(HaloExchange):
         if len(required_clean_info) == 1:
             # the halo might be read to a fixed literal depth
             if required_clean_info[0].var_depth or \
-               required_clean_info[0].max_depth:
+               required_clean_info[0].max_depth or \
+               required_clean_info[0].max_depth_m1:
                 # no it isn't so we might need the halo exchange
                 required = True
                 known = False
